@@ -16,3 +16,4 @@ INVARIANT RoundTrip
 INVARIANT FormatsAgree
 INVARIANT MultiMergeRefuses
 INVARIANT WriterSelects
+INVARIANT XmlDeclarative
